@@ -2,13 +2,13 @@
 import calendar
 from datetime import datetime, timedelta
 
-from ..gen.common import MN, WN, rng
+from ..gen.common import MN, WN, dst_wall_case, rng
 from ..hooks import AnchorCounter
 from ..monitors import PathTap
 from ..util import iso, parse_iso
 
 LEVEL = "exploration"
-RULE = ("reference datetimes 1971-2066 (first/last two days of months, Dec 31/Jan 1, leap days, times 00:00/23:59/uniform) x "
+RULE = ("[+ DST stratum: time-only strings inside DST gaps/folds of 16 zones, reference around the transition] reference datetimes 1971-2066 (first/last two days of months, Dec 31/Jan 1, leap days, times 00:00/23:59/uniform) x "
         "strings {weekday name full/abbr, month name, 'D Month' incl. 29 February, 'D Month HH:MM' incl. the reference's own "
         "day, 'HH:MM', 'D Month YY'} x 3 preferences; thorough additionally walks EVERY day of 1971-2066 x 7 weekdays x 3 "
         "preferences. Oracle: exact date for weekday-only and (TIMEZONE=UTC) time-only strings; named parts + direction/"
@@ -21,12 +21,17 @@ TIMEOUT = {"quick": 600, "thorough": 3600}
 ANCHORS = [("dateparser.parser", "_parser._correct_for_time_frame"), ("dateparser.parser", "_parser._get_correct_leap_year"),
            ("dateparser.parser", "_parser._correct_for_month"), ("dateparser.parser", "_parser._correct_for_day")]
 PREFS = ["past", "future", "current_period"]
-ZONES = ["UTC", "UTC", "UTC", "+0530", "-0800", "America/New_York", "Asia/Kolkata", "Pacific/Kiritimati", "Pacific/Pago_Pago"]
+ZONES = ["UTC", "UTC", "UTC", "+0530", "-0800", "America/New_York", "Asia/Kolkata", "Pacific/Kiritimati", "Pacific/Pago_Pago",
+         "Europe/London", "Australia/Lord_Howe"]
+DST_ZONES = ["America/New_York", "Europe/London", "Europe/Berlin", "Australia/Sydney", "Australia/Lord_Howe", "America/Sao_Paulo",
+             "America/St_Johns", "Pacific/Auckland", "Asia/Tehran", "Africa/Cairo", "America/Havana", "Atlantic/Azores"]
 N_RANDOM = {"quick": 70000, "thorough": 900000}
+N_DST = {"quick": 6000, "thorough": 120000}
 
 
 def shards(tier, seed):
     out = [{"part": "random", "i": i, "n": N_RANDOM[tier] // 12} for i in range(12)]
+    out += [{"part": "dst", "i": i, "n": N_DST[tier] // 2} for i in range(2)]
     if tier == "thorough":
         for y0 in range(1971, 2067, 4):
             out.append({"part": "everyday", "y0": y0, "y1": min(y0 + 4, 2067)})
@@ -141,12 +146,17 @@ def check_case(ctx, c):
             why = "time-of-day-changed"
         else:
             tz = get_timezone_from_tz_string(c["zone"])
-            try:
-                r_utc = (tz.localize(r, is_dst=None) if hasattr(tz, "_utc_transition_times") else
-                         (tz.localize(r) if hasattr(tz, "localize") else r.replace(tzinfo=tz))).astimezone(pytz.utc).replace(tzinfo=None)
-            except Exception:
-                ctx.count("time_zone:ambiguous-skipped")
-                return
+            readings = []
+            if hasattr(tz, "_utc_transition_times"):
+                try:
+                    readings = [tz.localize(r, is_dst=None)]
+                except Exception:
+                    # wall time inside a DST gap or fold: the statement does not choose, either reading is accepted
+                    ctx.count("time_zone:gap-or-fold(both readings accepted)")
+                    readings = [tz.localize(r, is_dst=True), tz.localize(r, is_dst=False)]
+            else:
+                readings = [tz.localize(r) if hasattr(tz, "localize") else r.replace(tzinfo=tz)]
+            r_utcs = [x.astimezone(pytz.utc).replace(tzinfo=None) for x in readings]
             day = timedelta(days=1)
 
             def holds(rr, bb):
@@ -156,7 +166,7 @@ def check_case(ctx, c):
                     return rr >= bb and rr - bb < day + timedelta(hours=1)
                 return abs(rr - bb) < day + timedelta(hours=1)
 
-            if not (holds(r_utc, b) or holds(r, b)):
+            if not (any(holds(x, b) for x in r_utcs) or holds(r, b)):
                 why = "direction"
                 exp = "a moment %s the reference within a day, under either reading of the naive reference" % pref
     else:
@@ -211,6 +221,16 @@ def run_shard(ctx, desc):
             rnd = rng(ctx.seed, "C09", desc["i"])
             for _ in range(desc["n"]):
                 check_case(ctx, gen_case(rnd))
+        elif desc["part"] == "dst":
+            # time-only strings naming a wall time inside (or at the edge of) a DST gap/fold of the TIMEZONE setting,
+            # reference on/around the transition day
+            rnd = rng(ctx.seed, "C09dst", desc["i"])
+            for _ in range(desc["n"]):
+                w = dst_wall_case(rnd)
+                c = {"base": iso(w["base"]), "pref": rnd.choice(PREFS), "kind": "time", "zone": w["zone"], "pmoy": "current",
+                     "h": w["wall"].hour, "mi": w["wall"].minute, "s": "%02d:%02d" % (w["wall"].hour, w["wall"].minute)}
+                ctx.count("dst:%s" % w["kind"])
+                check_case(ctx, c)
         else:
             d = datetime(desc["y0"], 1, 1, 12, 30)
             n = 0
